@@ -298,7 +298,10 @@ def st5_idempotent(ctx, rep):
                 v = [vv for (k, vv) in p.decisions if k == ("discr", tk[0].result) or k == ("discr", tk[0].result[1])]
             if v and v[0].lstrip("*") == "None":
                 n += 1
-                blocking = [e for e in p.calls() if e.site is not None and not e.inlined and (A.is_send_wrapper_call(e.site) or e.ck in POOL_JOIN)]
+                # in stop() itself (a shared shutdown helper inlined into it) the pool join after
+                # an already closed queue is stop()'s own business (ST1): close() then stop()
+                is_stop = b.j.get("name") == "stop"
+                blocking = [e for e in p.calls() if e.site is not None and not e.inlined and (A.is_send_wrapper_call(e.site) or (e.ck in POOL_JOIN and not is_stop))]
                 rep.check(not blocking, R, "second-close-does-nothing:" + short(b.path), ctx.where(b), "already closed: no queue operation", "already closed but performs %s" % [e.ck for e in blocking])
         rep.floor(R, "already-closed paths", n, 1, ctx.where(b))
 
